@@ -218,6 +218,20 @@ func c52(c *Ctx) {
 				return ok && sl.Low != nil && ConstInt(4)(sl.Low) && sl.High == nil
 			}), token.LSS, 4))
 			c.MustFact(d, "message-type-checked", Cmp(BinOpV(token.AND, CallRes(CalleeX("encoding/binary", "littleEndian.Uint32"), 0), ConstInt(255)), token.EQL, ConstInt(6)))
+			// decrypting straight into the caller's buffer needs room for the whole record:
+			// the destination is (*buf)[:0] of a buffer of bufSize bytes
+			if dst, isSl := d.Common().Args[0].(*ssa.Slice); isSl && dst.High != nil && ConstInt(0)(dst.High) && !sameValue(dst.X, d.Common().Args[1]) {
+				if u, isU := dst.X.(*ssa.UnOp); isU && CallRes(Callee("mem", "BufferPool.Get"), 0)(u.X) {
+					ct := d.Common().Args[1]
+					lenCT := func(v ssa.Value) bool {
+						l := builtinCall(v, "len")
+						return l != nil && (l.Call.Args[0] == ct || sameValue(l.Call.Args[0], ct))
+					}
+					c.MustFactAny(d, "direct-decrypt-only-if-buffer-holds-the-record",
+						Cmp(ParamV("bufSize"), token.GEQ, lenCT),
+						Cmp(ParamV("bufSize"), token.GEQ, BinOpV(token.SUB, lenCT, CallRes(Callee(altsc, "ALTSRecordCrypto.EncryptionOverhead"), 0))))
+				}
+			}
 			// ciphertext = msg[4:]
 			sl, ok := d.Common().Args[1].(*ssa.Slice)
 			c.Expect(ok && sl.Low != nil && ConstInt(4)(sl.Low), d, f, "ciphertext-follows-the-type-field", "the ciphertext does not start after the 4-byte message type")
